@@ -6,6 +6,7 @@ from hypothesis import strategies as st
 from ..gen import model as M
 from ..runner import CaseResult
 from .. import netcase as N
+from .. import cudacase as CU
 from ..ctext.extract import LayoutViolation, BACKENDS
 from ..ctext.cfile import walk_assignments
 from ..ctext.poly import const_int
@@ -43,6 +44,8 @@ def _case(draw, big=False):
     # a fraction of the cases is also compiled (ASan/UBSan, exactly-sized buffers) and compared with my reading of the text
     case["compile"] = draw(st.integers(0, 5 if not big else 2)) == 0
     case["yexp"] = [draw(st.integers(-12, 0)) for _ in range(6)]
+    # compiled cases also execute the cuSPARSE kernels (host emulation, ASan/UBSan, exactly-sized device buffers) on a batch
+    case["cuda"] = draw(CU.batch()) if case["compile"] else None
     return case
 
 
@@ -175,6 +178,7 @@ def compiled_cross_check(case, projs, lays, failures):
 def check_case(case, tier):
     N.reset_naunet_state()
     failures = []
+    extra = {}
     labels = N.network_features(case)
     nontrivial = False
     with N.Scratch() as d, N.ThermalPatch(case):
@@ -247,10 +251,15 @@ def check_case(case, tier):
             if case.get("compile") and not failures:
                 labels.append("compiled-cross-check")
                 compiled_cross_check(case, projs, lays, failures)
+                if case.get("cuda") and not failures:
+                    labels.append("cuda-batch-executed")
+                    f2, info = CU.run_batch(case["cuda"], projs["dense"], projs["cusparse"], sanitize=True)
+                    failures += f2
+                    extra = dict(info)
             rowcount = {}
             for (r, c) in base:
                 rowcount[r] = rowcount.get(r, 0) + 1
             nontrivial = len(base) >= 1 and (len(rowcount) < neq or any(v >= 2 for v in rowcount.values()))
             if len(rowcount) < neq:
                 labels.append("empty-row")
-    return CaseResult(failures, nontrivial, labels, sample=N.abridge(case))
+    return CaseResult(failures, nontrivial, labels, sample=N.abridge(case), extra=extra)
